@@ -84,7 +84,7 @@ func c19ExtendsCycle(c *core.Check) {
 // none: in beforeAfterToBox, with any of these comparisons true, UpdateCounters is not reachable.
 func c19NoBoxNoCounters(c *core.Check) {
 	p := c.Prog
-	r := c.Rule("R15", "no box, no counters: in html/boxes.beforeAfterToBox, when the content of the pseudo-element is none, normal or inhibit (each comparison in turn), the call of UpdateCounters is not reached", 3)
+	r := c.Rule("R15", "no box, no counters: in html/boxes.beforeAfterToBox, when the content of the pseudo-element is none, normal or inhibit (each comparison in turn), the call of UpdateCounters is not reached", 1)
 	fn := p.Fn("html/boxes", "beforeAfterToBox")
 	if fn == nil {
 		r.Anchor("html/boxes.beforeAfterToBox")
@@ -134,7 +134,7 @@ func c19NoBoxNoCounters(c *core.Check) {
 // Wherever the name of a counter style is compared with none, the type of the same value is tested too.
 func c19StyleKeywordNeedsType(c *core.Check) {
 	p := c.Prog
-	r := c.Rule("R16", "the keyword none is not the string \"none\": in html/boxes and css/counters every comparison of a CounterStyleID's Name with \"none\" goes with a comparison of the Type of the same value (same condition chain or a dominating test)", 3)
+	r := c.Rule("R16", "the keyword none is not the string \"none\": in html/boxes and css/counters every comparison of a CounterStyleID's Name with \"none\" goes with a comparison of the Type of the same value (same condition chain or a dominating test)", 1)
 	isStyle := func(t types.Type) bool {
 		if pt, ok := t.(*types.Pointer); ok {
 			t = pt.Elem()
